@@ -198,7 +198,10 @@ def _exec_text(rng, pop, tick):
                        'pattern', 'vars'])
     opts = {'max_statements': 8, 'reassign_after_get': True,
             'units_raw': 0.15}
-    if kind in ('timed',):
+    if kind == 'timed' or (kind in ('abort', 'abort_printf', 'vars')
+                           and rng.random() < 0.5):
+        # (a run that aborts never stops its clock: delays in the runs that
+        # follow show what it left behind)
         opts['p_delay'] = 0.5
         opts['delays'] = [0, tick * 0.5, tick * 2, 0.3]
     t, _m = scripts.gen_script(rng, pop, opts)
